@@ -244,3 +244,23 @@ package vm
 //@   requires forall a common.Address :: bal[a] >= 0
 //@   ensures[C05] @nomint supply <= old(supply)
 //@   ensures[C05] @ret err == nil && len(result0) == 0
+
+// ---- static calls are write-protected (C07) -------------------------------------------------------
+// Ghost ro_at_run: the read-only flag with which the most recent frame was started. run (the
+// interpreter / precompile dispatch) is assumed to hand the flag back unchanged - the only writer
+// is StaticCall, whose own contract below is exactly that - and never to give gas back.
+//@ ghost ro_at_run Bool
+//@ func run
+//@   trusted
+//@   ensures ro_at_run == old(evm.interpreter.readOnly) && evm.interpreter.readOnly == old(evm.interpreter.readOnly)
+//@   ensures contract.Gas <= old(contract.Gas)
+//@   assigns ro_at_run, inferred
+
+// A static call runs its frame with the read-only flag set, restores the flag to the caller's
+// value afterwards (so a nested static call cannot lift the protection of an enclosing one) and
+// never returns more gas than it was given.
+//@ func EVM.StaticCall
+//@   requires evm != nil && evm.interpreter != nil && evm.StateDB != nil
+//@   ensures[C07] @protected !old(evm.vmConfig.NoRecursion && evm.depth > 0) && old(evm.depth) <= 1024 ==> ro_at_run
+//@   ensures[C07] @restored evm.interpreter.readOnly == old(evm.interpreter.readOnly)
+//@   ensures[C07] @gas leftOverGas <= gas
